@@ -171,20 +171,73 @@ def c02_3(ctx):
         params = {a.arg for a in node.args.args}
         w = sym.SymWalker(node, sym.Canon(None, lambda t: t == ename), keep=sym.mutated_locals(node) - params)
         w.run()
-        red = [e for e in w.effects if e.kind == "aug" and norm(e.target) == ename and isinstance(e.op, ast.Mod)]
-        red += [e for st, r in w.visits for e in [None] if False]
-        vals = {norm(e.value) for e in red}
-        ok = bool(red) and vals <= {"self._order", "self.order()"}
-        if ok:
-            r = gi.f_or(*[e.reach for e in red])
-            ok = r is True or set(gi.f_opaques(r)) <= {"truthy(self._order)", "self._order is None", "truthy(self.order())"}
-        if not red:
-            # e = e % order spelled as a plain assignment
-            asg = [st for st, r in w.visits if isinstance(st, ast.Assign) and norm(st.targets[0]) == ename and isinstance(st.value, ast.BinOp) and isinstance(st.value.op, ast.Mod)]
-            ok = bool(asg) and all(norm(st.value.left) == ename for st in asg)
-        ctx.check(ok, "scalar-reduced-unconditionally:%s" % name, where,
-                  "%s reduces the scalar by %s under condition %s; every scalar (negative, >= order, >= 2*order) must be reduced modulo the group order before it is used" % (name, sorted(vals), [repr(e.reach)[:80] for e in red]),
-                  sample={"function": name, "reduction": sorted(vals)})
+        # wherever the scalar is looked at -- a bit test, a comparison with 0, an argument of the native call, the start of
+        # the ladder -- it is the scalar reduced modulo the group order: in the symbolic store every value and condition
+        # mentions the parameter only as `e % order` (however the reduction is spelled: e %= n, a new local, an expression)
+        order_texts = {"self._order", "self.order()", "order"}
+        raw_uses = []
+
+        no_order = gi.f_or(gi.f_not(("op", "truthy(self._order)")), ("op", "self._order is None"), gi.f_not(("op", "truthy(self.order())")), gi.f_not(("op", "truthy(order)")), ("op", "order is None"))
+
+        def scan(expr, what, cond=True):
+            if expr is None:
+                return
+            if cond is not True and cond is not False and sym.entails(cond, no_order):
+                return          # a curve without a known order: nothing to reduce by
+            parents = {}
+            for n in ast.walk(expr):
+                for c in ast.iter_child_nodes(n):
+                    parents[id(c)] = n
+            for n in ast.walk(expr):
+                if isinstance(n, ast.Name) and n.id == ename and isinstance(n.ctx, ast.Load):
+                    p_ = parents.get(id(n))
+                    if isinstance(p_, ast.BinOp) and isinstance(p_.op, ast.Mod) and p_.left is n and norm(p_.right) in order_texts:
+                        continue
+                    if isinstance(p_, ast.Call) and isinstance(p_.func, ast.Name) and p_.func.id in ("isinstance", "type"):
+                        continue
+                    raw_uses.append(what)
+
+        has_order = gi.f_not(no_order)
+
+        def subst(f_, o, val):
+            if f_ in (True, False):
+                return f_
+            if f_[0] == "op":
+                return val if f_[1] == o else f_
+            if f_[0] == "set":
+                return f_
+            if f_[0] == "not":
+                return gi.f_not(subst(f_[1], o, val))
+            parts = [subst(g_, o, val) for g_ in f_[1]]
+            return gi.f_and(*parts) if f_[0] == "and" else gi.f_or(*parts)
+
+        def scan_formula(f_, what):
+            for o in (gi.f_opaques(f_) if f_ not in (True, False) else []):
+                if isinstance(o, str) and ename in o:
+                    # does the test matter on the paths where the curve has an order?
+                    if sym._equiv(gi.f_and(has_order, subst(f_, o, True)), gi.f_and(has_order, subst(f_, o, False))):
+                        continue
+                    try:
+                        scan(ast.parse(o, mode="eval").body, what + " (condition `%s`)" % o[:50])
+                    except SyntaxError:
+                        pass
+        for e in w.exits:
+            scan(e.value, "%s %s" % (e.kind, norm(e.value)[:50] if e.value is not None else ""), e.cond)
+            scan_formula(e.cond, "%s" % e.kind)
+        for e in w.effects:
+            for part in e.parts():
+                if isinstance(part, ast.AST):
+                    scan(part, "%s %s" % (e.kind, norm(part)[:50]), e.reach)
+            scan_formula(e.reach, e.kind)
+        for lst in w.loop_in.values():
+            for st_ in lst:
+                for k_, v_ in st_.env.items():
+                    if isinstance(v_, ast.AST) and not k_.startswith("\0") and k_ != ename:
+                        scan(v_, "the ladder starts with %s = %s" % (k_, norm(v_)[:50]), st_.reach)
+        mentions = any(isinstance(n, ast.Name) and n.id == ename for n in ast.walk(node))
+        ctx.check(mentions and not raw_uses, "scalar-reduced-unconditionally:%s" % name, where,
+                  "%s looks at the scalar before reducing it modulo the group order: %s; every scalar (negative, >= order, >= 2*order) must be reduced first" % (name, sorted(set(raw_uses))[:3]),
+                  sample={"function": name, "unreduced_uses": sorted(set(raw_uses))[:3]})
         if pname is None:
             continue
         # the zero / infinity shortcut looks at the REDUCED scalar
